@@ -46,7 +46,7 @@ import (
 const (
 	cookieName     = "Portmaster-API-Token"
 	bridgeAddr     = "websocket-bridge"
-	waitTimeout    = 30 * time.Second
+	waitTimeout    = 120 * time.Second // a real hang lasts for ever; 30 s was once exceeded under load average ~50 without a reproducible cause (goroutine dump on a hang: wedge())
 	expPlaceholder = "@EXP@"
 )
 
